@@ -4,6 +4,9 @@ use crate::report::{Args, Report};
 use crate::structural::*;
 
 pub fn run(args: &Args, rep: &mut Report) {
+    if args.shard == 0 {
+        donedata_family(rep);
+    }
     let mut w = Workload::new(args, rep, Focus::Done);
     let dms = crate::c01::dms_available();
     let tune = |o: &mut GenOpts| {
@@ -91,4 +94,195 @@ pub fn run(args: &Args, rep: &mut Report) {
     w.rep.count("terminations_with_events_still_queued", d.terminations_with_events_queued);
     w.rep.count("terminations_with_several_active_states", d.terminations_with_several_active_states);
     w.rep.count("onexit_marks_checked_at_termination", d.onexit_marks_at_termination);
+}
+
+// ---------------------------------------------------------------------------------------------------------
+// donedata family: "done.state.<parent> (with the evaluated donedata)".  Hand-written documents, expected payload by
+// rule (W3C 5.5 / 5.7): the params that evaluate make up the data, a param whose evaluation fails is left out and
+// raises error.execution, <content> gives its value, a failing <content expr> gives no data and error.execution;
+// the done event itself is raised in every case, exactly once per entry of the final state, and the payload is
+// evaluated at that entry (the document re-enters the compound state with changed data).
+struct DdCase {
+    name: &'static str,
+    donedata: &'static str,
+    /// expected payload on the first and on the second completion (v is 1, then 11)
+    want: [Option<crate::expr_ref::V>; 2],
+    errors: u32,
+}
+
+fn dd_cases() -> Vec<DdCase> {
+    use crate::expr_ref::V;
+    let map = |pairs: &[(&str, V)]| {
+        let mut m = std::collections::BTreeMap::new();
+        for (k, v) in pairs {
+            m.insert(k.to_string(), v.clone());
+        }
+        Some(V::Map(m))
+    };
+    let s = |x: &str| V::Str(x.to_string());
+    vec![
+        DdCase { name: "one-param", donedata: r##"<param name="p" expr="v + 1"/>"##, want: [map(&[("p", V::Int(2))]), map(&[("p", V::Int(12))])], errors: 0 },
+        DdCase { name: "two-params", donedata: r##"<param name="p" expr="v + 1"/><param name="q" expr="'s'"/>"##, want: [map(&[("p", V::Int(2)), ("q", s("s"))]), map(&[("p", V::Int(12)), ("q", s("s"))])], errors: 0 },
+        DdCase { name: "param-location", donedata: r##"<param name="e" location="w"/><param name="p" expr="v"/>"##, want: [map(&[("e", s("str")), ("p", V::Int(1))]), map(&[("e", s("str")), ("p", V::Int(11))])], errors: 0 },
+        DdCase { name: "bad-param-last", donedata: r##"<param name="p" expr="v + 1"/><param name="bad" expr="nosuch_variable"/>"##, want: [map(&[("p", V::Int(2))]), map(&[("p", V::Int(12))])], errors: 1 },
+        DdCase { name: "bad-param-first", donedata: r##"<param name="bad" expr="nosuch_variable"/><param name="p" expr="v + 1"/>"##, want: [map(&[("p", V::Int(2))]), map(&[("p", V::Int(12))])], errors: 1 },
+        DdCase {
+            name: "bad-param-between",
+            donedata: r##"<param name="p" expr="v + 1"/><param name="bad" location="nosuch_variable"/><param name="q" expr="'s'"/>"##,
+            want: [map(&[("p", V::Int(2)), ("q", s("s"))]), map(&[("p", V::Int(12)), ("q", s("s"))])],
+            errors: 1,
+        },
+        DdCase { name: "only-bad-param", donedata: r##"<param name="bad" expr="nosuch_variable"/>"##, want: [None, None], errors: 1 },
+        DdCase { name: "content-expr", donedata: r##"<content expr="v + 5"/>"##, want: [Some(V::Int(6)), Some(V::Int(16))], errors: 0 },
+        DdCase { name: "content-text", donedata: r##"<content>plain</content>"##, want: [Some(s("plain")), Some(s("plain"))], errors: 0 },
+        DdCase { name: "bad-content-expr", donedata: r##"<content expr="nosuch_variable"/>"##, want: [None, None], errors: 1 },
+        DdCase { name: "no-donedata", donedata: "", want: [None, None], errors: 0 },
+    ]
+}
+
+fn dd_doc(dm: &str, c: &DdCase, in_parallel: bool) -> String {
+    let dd = if c.donedata.is_empty() { String::new() } else { format!("<donedata>{}</donedata>", c.donedata) };
+    // compound state c with final child cf; optionally c is a region of a parallel whose other region is final at once
+    let comp = format!(
+        r##"<state id="c" initial="c1">
+    <onentry><script>mark('en', 'c')</script></onentry>
+    <state id="c1"><transition event="fin" target="cf"/></state>
+    <final id="cf">{dd}</final>
+   </state>"##,
+        dd = dd
+    );
+    let body = if in_parallel {
+        format!(
+            r##"<parallel id="par">
+   {comp}
+   <state id="r2" initial="r2f"><final id="r2f"/></state>
+  </parallel>"##,
+            comp = comp
+        )
+    } else {
+        comp
+    };
+    format!(
+        r##"<scxml xmlns="http://www.w3.org/2005/07/scxml" version="1.0" datamodel="{dm}" initial="top">
+ <datamodel><data id="v" expr="1"/><data id="w" expr="'str'"/></datamodel>
+ <state id="top" initial="{init}">
+  <transition event="done.state.c"><script>mark('dd', _event.name, _event.data)</script></transition>
+  <transition event="done.state.par"><script>mark('ddp', _event.name, _event.data)</script></transition>
+  <transition event="error.execution"><script>mark('err')</script></transition>
+  <transition event="again" target="{init}"><assign location="v" expr="v + 10"/></transition>
+  <transition event="probe"><script>mark('probe')</script></transition>
+  {body}
+ </state>
+</scxml>"##,
+        dm = dm,
+        init = if in_parallel { "par" } else { "c" },
+        body = body
+    )
+}
+
+fn donedata_family(rep: &mut Report) {
+    use crate::expr_ref::V;
+    use crate::rec::Ev;
+    use crate::session::{run_doc, RunStatus};
+    let blank = |v: &V| matches!(v, V::Null | V::NoneV) || matches!(v, V::Str(s) if s.is_empty());
+    fn loose(a: &V, b: &V) -> bool {
+        match (a, b) {
+            (V::Int(x), V::Dbl(y)) | (V::Dbl(y), V::Int(x)) => (*x as f64) == *y,
+            (V::Map(x), V::Map(y)) => x.len() == y.len() && x.iter().all(|(k, v)| y.get(k).map(|w| loose(v, w)).unwrap_or(false)),
+            _ => a.same(b),
+        }
+    }
+    let path: Vec<String> = ["probe", "fin", "probe", "again", "fin", "probe"].iter().map(|s| s.to_string()).collect();
+    let dmns: Vec<&str> = if cfg!(feature = "full") { vec!["rfsm-expression", "ecmascript"] } else { vec!["rfsm-expression"] };
+    for dmn in dmns {
+        for c in dd_cases() {
+            for in_parallel in [false, true] {
+                let xml = dd_doc(dmn, &c, in_parallel);
+                let res = run_doc(&xml, &path);
+                rep.evaluations += 1;
+                let w = serde_json::json!({"family": "donedata", "case": c.name, "datamodel": dmn, "in_parallel": in_parallel, "xml": xml, "events": path});
+                if res.status != RunStatus::Completed {
+                    if res.session_thread_panicked {
+                        rep.violation("donedata:session-died", &format!("[{} / {}] the session thread died", dmn, c.name), w);
+                    } else {
+                        rep.inconclusive(&format!("donedata family: {:?}", res.status));
+                    }
+                    continue;
+                }
+                // marks of the session, in order
+                let mut dd: Vec<(String, V)> = Vec::new();
+                let mut ddp = 0u32;
+                let mut errs_before: Vec<u32> = Vec::new(); // error marks seen before each dd mark
+                let mut errs = 0u32;
+                let mut probes = 0u32;
+                for e in &res.log {
+                    if let Ev::Mark { tag, args, .. } = &e.ev {
+                        match tag.as_str() {
+                            "dd" => {
+                                let n = match args.first() {
+                                    Some(V::Str(s)) => s.clone(),
+                                    _ => String::new(),
+                                };
+                                dd.push((n, args.get(1).cloned().unwrap_or(V::NoneV)));
+                                errs_before.push(errs);
+                            }
+                            "ddp" => ddp += 1,
+                            "err" => errs += 1,
+                            "probe" => probes += 1,
+                            _ => {}
+                        }
+                    }
+                }
+                rep.count("donedata_completions_judged", dd.len() as u64);
+                if dd.len() != 2 {
+                    rep.violation(
+                        if dd.len() < 2 { "donedata:done-event-missing" } else { "donedata:extra-done-event" },
+                        &format!("[{} / {} / parallel={}] done.state.c processed {} times for two completions of the compound state", dmn, c.name, in_parallel, dd.len()),
+                        w.clone(),
+                    );
+                    continue;
+                }
+                if in_parallel && ddp != 2 {
+                    rep.violation("donedata:parallel-done-count", &format!("[{} / {}] done.state.par processed {} times for two completions", dmn, c.name, ddp), w.clone());
+                }
+                if probes != 3 {
+                    rep.violation("donedata:session-not-responsive", &format!("[{} / {}] {} of 3 probe events processed", dmn, c.name, probes), w.clone());
+                }
+                for k in 0..2 {
+                    let got = &dd[k].1;
+                    let ok = match &c.want[k] {
+                        None => blank(got),
+                        Some(want) => loose(want, got),
+                    };
+                    if !ok {
+                        rep.violation(
+                            &format!("donedata:wrong-payload:{}", c.name),
+                            &format!(
+                                "[{} / {} / parallel={}] completion #{}: done.state.c carries {} but the donedata evaluates to {}",
+                                dmn,
+                                c.name,
+                                in_parallel,
+                                k + 1,
+                                got.show(),
+                                c.want[k].as_ref().map(|v| v.show()).unwrap_or_else(|| "nothing".into())
+                            ),
+                            w.clone(),
+                        );
+                    } else if c.want[k].is_some() {
+                        rep.nontrivial_key(&format!("dd:{}:{}:{}:{}", dmn, c.name, in_parallel, k));
+                    }
+                }
+                // error.execution: one per failing element and completion, raised before the done event it belongs to
+                if errs != 2 * c.errors {
+                    rep.violation(
+                        &format!("donedata:error-count:{}", c.name),
+                        &format!("[{} / {}] {} error.execution events for {} failing donedata evaluations", dmn, c.name, errs, 2 * c.errors),
+                        w.clone(),
+                    );
+                } else if c.errors > 0 {
+                    rep.count("donedata_errors_observed", errs as u64);
+                }
+            }
+        }
+    }
 }
